@@ -573,6 +573,65 @@ func rawChannelAfterIdle(capacity, n int, idle time.Duration, bound int) *vsched
 	}
 }
 
+// bigBurstScenario: bursts of hundreds of values through the overflow buffer of a BufferedChannelQueue that keeps `hooks`
+// node hooks, with a drain and an idle period (the free-node worker trims then) between two bursts: every value comes
+// out once, in order. One producer/consumer, default schedule and every order at blocking points (bound 0): a long
+// history rather than many interleavings; sync.Pool policy `pool` (1 / 2: it hands nodes back, LIFO / FIFO).
+func bigBurstScenario(hooks int, bursts []int, idle time.Duration, pool int) *vsched.Scenario {
+	fam := "buffered-big-bursts"
+	return &vsched.Scenario{
+		Name:      fmt.Sprintf("buffered/cap1/node-hooks%d/bursts%v/idle-%v/sync.Pool-policy%d", hooks, bursts, idle, pool),
+		Bound:     0,
+		FirstOnly: true,
+		MaxSteps:  60000000,
+		Horizon:   int64(time.Minute),
+		Body: func() {
+			vsched.PoolRetain = pool
+			// the loader re-arms every 10 us and the free-node worker trims once per idle/4: a whole burst drains between two
+			// trims, so that a trim cuts off a chain of hundreds of nodes at once (as when real jobs take microseconds)
+			q := fpgo.NewBufferedChannelQueue[int](1, 100000, hooks).SetLoadFromPoolDuration(10 * time.Microsecond)
+			if idle > 0 {
+				q.SetFreeNodeHookPoolIntervalDuration(idle / 4)
+			}
+			next, expect := 0, 0
+			for bi, n := range bursts {
+				for i := 0; i < n; i++ {
+					if err := q.Offer(next); err != nil {
+						vsched.Event("offer-failed", next, errName(err))
+						return
+					}
+					next++
+				}
+				for i := 0; i < n; i++ {
+					v, err := q.TakeWithTimeout(time.Second)
+					if err != nil || v != expect {
+						vsched.Event("wrong", bi, i, v, errName(err), expect)
+						return
+					}
+					expect++
+				}
+				time.Sleep(idle)
+			}
+			vsched.Event("all", expect)
+			q.Close()
+		},
+		Check: func(r *vsched.Result) []vsched.Failure {
+			fs := e1.Basic("C07", fam, r, nil)
+			if len(fs) > 0 {
+				return fs
+			}
+			total := 0
+			for _, n := range bursts {
+				total += n
+			}
+			if e1.Count(r, "all", total) != 1 {
+				fs = append(fs, e1.Fail("C07|"+fam+"|lost-or-reordered", "bursts %v through the overflow buffer (node hooks %d, %v idle between bursts): %v", bursts, hooks, idle, r.Events[len(r.Events)-min(len(r.Events), 3):]))
+			}
+			return fs
+		},
+	}
+}
+
 func payloadScenario(label string, vals []interface{}, bound int) *vsched.Scenario {
 	fam := "payload"
 	return &vsched.Scenario{
@@ -637,6 +696,10 @@ func scenarios(tier string) []*vsched.Scenario {
 		out = append(out, chanScenario(c, 2))
 	}
 	out = append(out, parkedProducerScenario(1))
+	for pool := 1; pool <= 2; pool++ {
+		out = append(out, bigBurstScenario(100, []int{600, 350, 450, 250, 300}, 2*time.Second, pool), bigBurstScenario(1000, []int{300, 600, 300, 700, 300}, 2*time.Second, pool), bigBurstScenario(100, []int{600, 350, 450, 250, 300}, 40*time.Millisecond, pool),
+			bigBurstScenario(300, []int{257, 513, 257, 1025, 300}, 0, pool))
+	}
 	for _, idle := range []time.Duration{100 * time.Millisecond, 5 * time.Second, 10 * time.Minute} {
 		out = append(out, rawChannelAfterIdle(2, 6, idle, 1), rawChannelAfterIdle(0, 3, idle, 1))
 	}
@@ -735,4 +798,11 @@ func scenarios(tier string) []*vsched.Scenario {
 		}
 	}
 	return out
+}
+
+func min(a, b int) int {
+	if a < b {
+		return a
+	}
+	return b
 }
